@@ -130,7 +130,25 @@ def write_if_changed(path, text):
     return True
 
 
-def generate(dst, mode, known=None):
+DEFAULT_CAPS = {"STR": 8, "VEC": 4, "MAP": 4, "DEQ": 8, "BVEC": 2, "ARCSTR": 32}
+
+
+def parse_caps(text):
+    """'VEC=6 STR=16' -> dict merged over the defaults"""
+    caps = dict(DEFAULT_CAPS)
+    for tok in (text or "").replace(",", " ").split():
+        k, v = tok.split("=")
+        assert k in caps, "unknown capacity " + k
+        caps[k] = int(v)
+    return caps
+
+
+def caps_key(text):
+    caps = parse_caps(text)
+    return "-".join("%s%d" % (k, caps[k]) for k in sorted(caps) if caps[k] != DEFAULT_CAPS[k]) or "default"
+
+
+def generate(dst, mode, known=None, caps_text=None):
     """(Re)generate the scratch crate at dst from REPO's working tree. Returns dict with source digests."""
     assert mode in ("real", "vshim")
     src = os.path.join(REPO, "src")
@@ -169,6 +187,11 @@ def generate(dst, mode, known=None):
         for fn in os.listdir(d):
             if os.path.join(d, fn) not in wanted:
                 os.remove(os.path.join(d, fn))
+    if mode == "vshim":
+        caps = parse_caps(caps_text)
+        write_if_changed(os.path.join(dst, "src", "caps_gen.rs"),
+                         "// generated: bounded-container capacities for the Kani build of this scratch crate\n" +
+                         "".join("pub const %s: usize = %d;\n" % (k, caps[k]) for k in sorted(caps)))
     root = ["#![allow(unused, clippy::all)]", "#![allow(unexpected_cfgs)]"]
     if mode == "vshim":
         root.append(open(os.path.join(CRATE, "vshim_macros.rs")).read())
